@@ -104,11 +104,11 @@ def eval_spec(seed_field, cred_id, elem, Nok):
     return App('Eval', App('OprfServer', App('ser_scalar', key)), elem)
 
 
-def check_eval(rep, rule, which, ev, sn, w, Nok):
+def check_eval(rep, rule, which, ev, sn, w, Nok, elem):
     """R08.2 / R14.1: evaluation = f(seed, credential id, request element) only"""
     seeds = [x for x in subterms(ev, lambda t: t[0] == 'fld' and root_of(t) == Sym('setup'))]
     seeds = [x for x in seeds if not any(x != y and contains(y, x) for y in seeds)]
-    exp = eval_spec(seeds[0], Sym('cred_id'), ('fld', Sym('request'), 'blinded_element'), Nok) if len(set(seeds)) == 1 else None
+    exp = eval_spec(seeds[0], Sym('cred_id'), elem, Nok) if (len(set(seeds)) == 1 and elem is not None) else None
     good = exp is not None and ev == exp
     rep.ob(rule, '%s: evaluation element equals Eval(DeriveKeyPair(Expand(seed, cred_id||"OprfKey", Nok), "OPAQUE-DeriveKeyPair"), request element)' % which,
            good, 'got %s ; expected %s' % (show(ev)[:500], show(exp)[:500]), w, sn, sample=show(ev)[:400])
@@ -174,8 +174,8 @@ def run(ctx):
         rep.ob('R08.1', 'both record variants reached', any(1 in g and 0 in g for g in groups.values()), '', w, sn)
         # R08.2
         for p in s.ok_paths:
-            ev = fields(fields(p.payload).get('message')).get('evaluation_element')
-            check_eval(rep, 'R08.2', 'ServerLogin::start', ev, sn, w, P['Nok'])
+            ev = msg_eval(fields(p.payload).get('message'))
+            check_eval(rep, 'R08.2', 'ServerLogin::start', ev, sn, w, P['Nok'], role_term(ctx, sn, s, 4, Sym('request'), 'blinded'))
         # R08.4 lengths are types
         S = ctx.suite(sn)
         b = S.find('opaque_ke::CredentialResponse::<CS>::serialize')
